@@ -12,6 +12,7 @@ gen_matrix(rng, C, **features) builds the matrix through the public API.  Featur
   len_choices (list of frame lengths drawn from, overrides max_len/fd for the length)
   mux_value_tables (probability of a value table on the multiplexer signal)  mux_declared_01 (probability that such a
     multiplexer wider than one bit declares min 0 / max 1 and uses selector values 0/1 only)
+  id_twins (probability that a frame reuses an earlier frame's identifier number in the other frame format)
   tables_named_like_signals (probability per signal of a matrix-wide value table of the same name with other content)
   bare_signals (probability of a signal with all defaults - unsigned, factor 1, offset 0, natural limits, no unit - and a value table)
   static_in_mux (default True; False: a multiplexed frame holds only the multiplexer and multiplexed signals)
@@ -125,6 +126,13 @@ def gen_matrix(rng, C, **ft):
             if g("unique_id_numbers", False) and fid in used_id_numbers:
                 continue
             break
+        if g("id_twins", None) is not None and not g("unique_id_numbers", False) and used_ids and rng.random() < g("id_twins", 0):
+            # the identifier NUMBER of an earlier frame in the other frame format (0x123 next to 0x123 extended)
+            cand = sorted((i, e) for (i, e) in used_ids if i < 2 ** 11 and (i, not e) not in used_ids)
+            if cand:
+                fid, ext = rng.choice(cand)
+                ext = not ext
+                isj = isj and ext
         used_ids.add((fid, ext))
         used_id_numbers.add(fid)
         max_len = g("max_len", 8)
